@@ -85,7 +85,7 @@ def adaptor_chain(tr: Tracer, op, max_steps=30):
     return o, chain
 
 
-IDENTITY_ADAPTORS = ('iter', 'into_iter', 'deref', 'collect', 'as_slice', 'by_ref', 'borrow', 'as_ref', 'from_iter', 'to_vec', 'into_vec', 'into_par_iter', 'par_iter')
+IDENTITY_ADAPTORS = ('iter', 'into_iter', 'deref', 'collect', 'as_slice', 'by_ref', 'borrow', 'as_ref', 'from_iter', 'to_vec', 'into_vec', 'vec_of', 'into_par_iter', 'par_iter')
 
 
 def significant(names):
